@@ -83,6 +83,10 @@ Proof.
 Qed.
 End Traversals.
 
+Lemma Forall2_imp : forall {A B} (R R' : A -> B -> Prop), (forall a b, R a b -> R' a b) ->
+  forall l m, Forall2 R l m -> Forall2 R' l m.
+Proof. intros A B R R' H l m HF. induction HF; constructor; auto. Qed.
+
 (* induction on trees with the hypothesis for every argument of a node *)
 Lemma tree_ind' : forall (Q : tree -> Prop),
   (forall x, Q (TSurf x)) -> (forall c, Q (TRef c)) -> (forall c, Q (TCompl c)) ->
@@ -694,6 +698,112 @@ Proof.
     - inversion Ergt; subst rgt. exact Dn. }
   replace (b1 && b2) with (combine_op true [b1; b2]) by (cbn; rewrite andb_true_r; reflexivity).
   apply DNode. apply DCons; [exact Dl|]. apply DCons; [exact Dr|]. apply DNil.
+Qed.
+
+
+(* an element of to_process stands for a descent below some cell of the filling universe *)
+Definition ElemOK (u : Z) (s : state) (e : Z) (ch : list Z) : Prop :=
+  exists c, In c (du_get u du) /\ GenOK s c e ch.
+
+Lemma fill_loop_spec : forall key cl u,
+  dget key (s_cells s0) = Some cl -> c_fill cl = Some u ->
+  forall es chl s ks s',
+  Forall2 (ElemOK u s) es chl ->
+  extends s0 s -> Inv s ->
+  mapM_st (fill_one cf ifd ifg key cl) es s = Ok (ks, s') ->
+  Inv s' /\ extends s s' /\ Forall2 (GenOK s' key) ks (map (cons key) chl).
+Proof.
+  intros key cl u Hkey Hfill es chl s ks s' HF. revert chl s ks s' HF.
+  induction es as [|e es IH]; intros chl s ks s' HF Hx0 HI H.
+  - inversion HF; subst. cbn in H. inversion H; subst.
+    split; [exact HI|]. split; [apply extends_refl | constructor].
+  - inversion HF as [|e' ch es' chl' HE HF']; subst. cbn [mapM_st] in H.
+    destruct (fill_one cf ifd ifg key cl e s) as [[k s1]|] eqn:E1; [|discriminate].
+    destruct (mapM_st (fill_one cf ifd ifg key cl) es s1) as [[ks' s2]|] eqn:E2; [|discriminate].
+    inversion H; subst ks s'; clear H.
+    destruct HE as (c & Hc & HG).
+    destruct (fill_one_spec _ _ _ _ _ _ _ _ _ Hkey Hfill Hc Hx0 HI HG E1) as (HI1 & Hx1 & HG1).
+    assert (HF1 : Forall2 (ElemOK u s1) es chl').
+    { eapply Forall2_imp; [|exact HF']. intros a b (c0 & Hc0 & HG0).
+      exists c0. split; [exact Hc0 | eapply GenOK_mono; eauto]. }
+    destruct (IH _ _ _ _ HF1 (extends_trans _ _ _ Hx0 Hx1) HI1 E2) as (HI2 & Hx2 & HG2).
+    split; [exact HI2|]. split; [eapply extends_trans; eauto|].
+    cbn [map]. constructor; [eapply GenOK_mono; eauto | exact HG2].
+Qed.
+
+Lemma Forall2_concat : forall {A B} (R : A -> B -> Prop) ls ms,
+  Forall2 (Forall2 R) ls ms -> Forall2 R (concat ls) (concat ms).
+Proof.
+  intros A B R ls ms H. induction H; cbn; [constructor|]. apply Forall2_app; assumption.
+Qed.
+
+(* pot_fill: one generated cell per descent, in the order of the universe lists *)
+Lemma pot_fill_spec : forall fuel key s ks s',
+  extends s0 s -> Inv s -> (exists cl, dget key (s_cells s0) = Some cl) ->
+  pot_fill fuel cf du ifd ifg key s = Ok (ks, s') ->
+  Inv s' /\ extends s s' /\ exists chs, Paths s0 du key chs /\ Forall2 (GenOK s' key) ks chs.
+Proof.
+  induction fuel as [|f IH]; intros key s ks s' Hx0 HI [cl Hkey] H; [discriminate|].
+  cbn [Model.pot_fill] in H.
+  rewrite (proj1 Hx0 _ _ Hkey) in H.
+  destruct (c_fill cl) as [u|] eqn:Efill.
+  - destruct (concatM_st (pot_fill f cf du ifd ifg) (du_get u du) s) as [[tp s1]|] eqn:E1;
+      [|discriminate].
+    set (R := fun (s : state) (c : Z) (es : list Z) =>
+                exists chs, Paths s0 du c chs /\ Forall2 (GenOK s c) es chs).
+    assert (Rmono : forall s s' a b, extends s s' -> R s a b -> R s' a b).
+    { intros sa sb a b Hx (chs & HP & HF). exists chs. split; [exact HP|].
+      eapply Forall2_imp; [|exact HF]. intros e ch HG. eapply GenOK_mono; eauto. }
+    assert (Hstep : forall c, In c (du_get u du) -> forall sa b sb,
+               (extends s0 sa /\ Inv sa) -> pot_fill f cf du ifd ifg c sa = Ok (b, sb) ->
+               (extends s0 sb /\ Inv sb) /\ extends sa sb /\ R sb c b).
+    { intros c Hin sa b sb [Hxa HIa] E.
+      destruct (IH c sa b sb Hxa HIa (du_closed u c Hin) E) as (A & B & C).
+      split; [split; [eapply extends_trans; eauto | exact A]|]. split; [exact B | exact C]. }
+    destruct (concatM_st_spec (fun s => extends s0 s /\ Inv s) extends extends_refl extends_trans
+                (pot_fill f cf du ifd ifg) R Rmono (du_get u du) Hstep
+                _ _ _ (conj Hx0 HI) E1) as ((Hx01 & HI1) & Hx1 & ess & Htp & HR).
+    unfold R in HR.
+    (* split the per-cell results into descents and generated cells *)
+    assert (Hsplit : exists chss, PathsL s0 du (du_get u du) chss /\
+                       Forall2 (ElemOK u s1) (concat ess) (concat chss)).
+    { assert (Hgen : forall l, (forall c, In c l -> In c (du_get u du)) ->
+                forall ess0, Forall2 (fun c es => exists chs, Paths s0 du c chs /\
+                                          Forall2 (GenOK s1 c) es chs) l ess0 ->
+                exists chss, PathsL s0 du l chss /\ Forall2 (ElemOK u s1) (concat ess0) (concat chss)).
+      { intros l Hl ess0 HF. induction HF as [|c es l' ess' (chs & HP & HG) HF' IHF].
+        - exists []. split; [apply PLNil | constructor].
+        - destruct (IHF (fun c0 Hin => Hl c0 (or_intror Hin))) as (chss & HPL & HE).
+          exists (chs :: chss). split; [apply PLCons; assumption|]. cbn [concat].
+          apply Forall2_app; [|exact HE].
+          eapply Forall2_imp; [|exact HG]. intros a b HGab. exists c.
+          split; [apply Hl; left; reflexivity | exact HGab]. }
+      exact (Hgen _ (fun c Hin => Hin) _ HR). }
+    destruct Hsplit as (chss & HPL & HE). subst tp.
+    unfold Model.fill_loop in H.
+    destruct (fill_loop_spec _ _ _ Hkey Efill _ _ _ _ _ HE Hx01 HI1 H)
+      as (HI2 & Hx2 & HG2).
+    split; [exact HI2|]. split; [eapply extends_trans; eauto|].
+    exists (map (cons key) (concat chss)). split; [|exact HG2].
+    eapply PFill; eauto.
+  - inversion H; subst ks s'; clear H.
+    split; [exact HI|]. split; [apply extends_refl|].
+    exists [[key]]. split; [eapply PLeaf; eauto|].
+    constructor; [|constructor].
+    exists cl, cl, cl, []. split; [reflexivity|].
+    split; [apply (proj1 Hx0); exact Hkey|].
+    split; [exact Hkey|]. split; [exact Hkey|]. split; [exact Efill|].
+    rewrite (orig_empty _ _ Hkey).
+    split; [reflexivity|]. split; [reflexivity|].
+    split; [reflexivity|]. split; [reflexivity|]. split; [reflexivity|]. split; [reflexivity|].
+    split; [left; auto|].
+    intros p b HL.
+    inversion HL as [key' cl' p' b' Hk' Hf' HDk Ek Ep Echn Eb
+                    |key' cl' u' p' c' chain b1 b2 Hk' Hf' Hc' HD1' HL' Ek Ep Echn Eb].
+    + rewrite Hkey in Hk'. inversion Hk'; subst cl'.
+      eapply DRef; [apply (proj1 Hx0); exact Hkey|].
+      apply (proj1 (Den_mono _ _ _ Hx0)). exact HDk.
+    + subst chain. destruct (LocB_head _ _ _ _ _ _ HL') as (r' & Hr'). discriminate Hr'.
 Qed.
 
 End Fill.
